@@ -1,6 +1,7 @@
 mod gen;
 mod props;
 mod runner;
+mod sched;
 mod sim;
 mod svc;
 mod vclock;
@@ -83,6 +84,7 @@ fn main() {
         "C06" => drive(&props::timelimiter::C06, &opts),
         "C14" => drive(&props::backoff::C14, &opts),
         "C12" => drive(&props::hedge::C12, &opts),
+        "C08" => drive(&props::budget::C08, &opts),
         "C02" => drive(&props::ratelimiter::C02, &opts),
         "C15" => drive(&props::ratelimiter::C15, &opts),
         _ => {
